@@ -61,6 +61,11 @@ pub const OPS: &[(&str, char)] = &[
     ("c = fresh()", 'c'),
     ("b = [a[1]..]", 'c'),
     ("a[1] += [K]", 'c'),
+    ("[a[1], a[0]] = b", 'm'),
+    ("[b[1], b[0]] = a", 'm'),
+    ("c = []\nfor e in a {\nc += [e]\n}", 'c'),
+    ("c = []\nb = 0\nwhile b < 2 {\nb += 1\nl := [b]\nc += [fn () {\nreturn l\n}]\n}\nb = [c[0](), c[1]()]\nc = null", 'c'),
+    ("c = []\nfor e in [0, 1] {\nl := [e]\nc += [fn () {\nreturn l\n}]\n}\nb = [c[0](), c[1]()]\nc = null", 'c'),
     ("o.k += [K]", 'c'),
     ("o[\"k\"] += [K]", 'c'),
     ("c[0] += [K]", 'c'),
